@@ -76,14 +76,13 @@ def _threshold_guard(ctx, spec, var_pred, count_pred, targets, what, key):
     f = Folder(ctx.repo, mod.name)
     for n in cfg.tests():
         t = n.ast
-        if isinstance(t, ast.Compare) and len(t.ops) == 1 and var_pred(ast.unparse(t.left)):
-            r = t.comparators[0]
-            if isinstance(t.ops[0], ast.Gt) and count_pred(ast.unparse(r)):
-                gs.append(Guard(n, BAD_TRUE))
-            elif isinstance(t.ops[0], ast.LtE) and count_pred(ast.unparse(r)):
-                gs.append(Guard(n, BAD_FALSE))
-            elif isinstance(t.ops[0], ast.Eq) and f.fold(r) == 1:
-                exempt.append((n.id, True))
+        r = rl.rel(t, lambda e: var_pred(ast.unparse(e)), lambda e: count_pred(ast.unparse(e)))
+        if r == ">":
+            gs.append(Guard(n, BAD_TRUE))
+        elif r == "<=":
+            gs.append(Guard(n, BAD_FALSE))
+        elif rl.rel(t, lambda e: var_pred(ast.unparse(e)), lambda e: f.fold(e) == 1) == "==":
+            exempt.append((n.id, True))
     tg = [n.id for n in targets(fn)]
     if not tg:
         raise AnalysisError("%s: protected statement not found" % spec)
@@ -133,10 +132,12 @@ def c15_4(ctx):
             out.append(ctx.bad(spec, "shares are not compared on their %s" % label, fn, mod, key="consistency:" + "+".join(attrs)))
             continue
         nm = names[0]
-        tests = [n for n in cfg.tests() if isinstance(n.ast, ast.Compare) and isinstance(n.ast.left, ast.Call) and call_name(n.ast.left) == "len" and dotted(n.ast.left.args[0]) == nm
-                 and isinstance(n.ast.ops[0], ast.NotEq)]
+        def is_len_nm(e, nm=nm):
+            return isinstance(e, ast.Call) and call_name(e) == "len" and e.args and dotted(e.args[0]) == nm
+        tests = [n for n in cfg.tests() if rl.rel(n.ast, is_len_nm, lambda e: True) == "!="]
         if tests and all(cfg.nodes[s].kind == "raise" for s, l in cfg.succ[tests[0].id] if l is True):
-            rhs = ast.unparse(tests[0].ast.comparators[0])
+            t0 = tests[0].ast
+            rhs = ast.unparse(t0.comparators[0] if is_len_nm(t0.left) else t0.left)
             good_rhs = rhs == "1" if attrs != ("group_index", "member_index") else rhs == "len(shares)"
             if good_rhs:
                 out.append(ctx.ok(spec, "shares with differing %s are rejected" % label if attrs != ("group_index", "member_index") else "duplicate share coordinates are rejected", tests[0].ast, mod, key="consistency:" + "+".join(attrs)))
